@@ -1053,6 +1053,50 @@ fn check_are_endpoints_securities_compatible(
 // -----------------------------------------------------------
 // -----------------------------------------------------------
 
+// What event_loop() does for each DiscoveryNotificationType and local endpoint command,
+// callable without running the poll loop.
+#[cfg(rustdds_verif)]
+impl DPEventLoop {
+  pub(crate) fn verif_add_local_reader(&mut self, i: ReaderIngredients) {
+    self.add_local_reader(i);
+  }
+  pub(crate) fn verif_add_local_writer(&mut self, i: WriterIngredients) {
+    self.add_local_writer(i);
+  }
+  pub(crate) fn verif_participant_updated(&mut self, p: GuidPrefix) {
+    self.update_participant(p);
+  }
+  pub(crate) fn verif_participant_lost(&mut self, p: GuidPrefix) {
+    self.remote_participant_lost(p);
+  }
+  pub(crate) fn verif_reader_updated(&mut self, d: &DiscoveredReaderData) {
+    self.remote_reader_discovered(d);
+  }
+  pub(crate) fn verif_reader_lost(&mut self, g: GUID) {
+    self.remote_reader_lost(g);
+  }
+  pub(crate) fn verif_writer_updated(&mut self, d: &DiscoveredWriterData) {
+    self.remote_writer_discovered(d);
+  }
+  pub(crate) fn verif_writer_lost(&mut self, g: GUID) {
+    self.remote_writer_lost(g);
+  }
+  pub(crate) fn verif_writer_matched(&self, writer_eid: EntityId) -> Vec<[u8; 16]> {
+    self
+      .writers
+      .get(&writer_eid)
+      .map(|w| w.verif_matched_readers())
+      .unwrap_or_default()
+  }
+  pub(crate) fn verif_reader_matched(&mut self, reader_eid: EntityId) -> Vec<[u8; 16]> {
+    self
+      .message_receiver
+      .reader_mut(reader_eid)
+      .map(|r| r.verif_matched_writers())
+      .unwrap_or_default()
+  }
+}
+
 #[cfg(test)]
 mod tests {
   use std::{sync::Mutex, thread};
